@@ -91,6 +91,10 @@ var rxExtern struct {
 }
 var errOpaque error
 
+// error constructors: the value is an error that is not an alert (the text is not modelled)
+var fmt = struct{ Errorf func(format string, a ...any) error }{}
+var errors = struct{ New func(text string) error }{}
+
 `
 
 // curStubs: the view stubs of the group being translated
@@ -146,6 +150,16 @@ func (b goCBC) CryptBlocks(dst, src []byte) {
 	copy(dst, rxExtern.cbcDecrypt(b.iv, src))
 }
 func (e alert) Error() string { return "" }
+`
+
+// negStubs / negWanted: parameter negotiation (C01): version and ALPN selection over a view of Config
+var negWanted = []string{"Config.supportedVersions", "Config.mutualVersion", "negotiateALPN", "checkALPN"}
+
+const negStubs = `
+type Config struct {
+	MinVersion uint16
+	MaxVersion uint16
+}
 `
 
 // viewStubs: per package, the part of the connection state the translated methods read.  The
@@ -545,18 +559,19 @@ type field struct {
 }
 
 type fnMeta struct {
-	goName   string
-	leanName string
-	decl     *ast.FuncDecl
-	obj      types.Object
-	panics   bool // uses a checked helper (directly or through a callee)
-	mutRecv  bool // assigns through its pointer receiver
-	hasRecv  bool
-	ptrRecv  bool
-	mutParam []string     // names of slice parameters written through (returned after the receiver)
-	usesExt  bool         // calls a modelled library function: takes `(ext : Go.Extern)` first
-	usesRx   bool         // calls a modelled record cipher: takes `(rx : Go.RxExtern)` (after ext)
-	inner    *ast.FuncLit // body is `return func(params) {…}`: translated uncurried (outer ++ inner parameters)
+	goName    string
+	leanName  string
+	decl      *ast.FuncDecl
+	obj       types.Object
+	panics    bool // uses a checked helper (directly or through a callee)
+	mutRecv   bool // assigns through its pointer receiver
+	hasRecv   bool
+	ptrRecv   bool
+	mutParam  []string     // names of slice parameters written through (returned after the receiver)
+	usesExt   bool         // calls a modelled library function: takes `(ext : Go.Extern)` first
+	usesRx    bool         // calls a modelled record cipher: takes `(rx : Go.RxExtern)` (after ext)
+	nonNilPtr bool         // compares a struct pointer with nil (translated as "not nil")
+	inner     *ast.FuncLit // body is `return func(params) {…}`: translated uncurried (outer ++ inner parameters)
 }
 
 // body / params of the function as translated (the closure's, for closure-returning functions)
@@ -1120,6 +1135,14 @@ func (t *tr) binary(op token.Token, X, Y ast.Expr, resTy types.Type) string {
 					if isHashIface(ot) {
 						return "(" + neg + "Go.Hmac.present " + t.atom(other) + ")"
 					}
+					if isStructPtr(ot) {
+						// a structure value stands for a NON-NIL pointer: nil pointers are outside the model
+						t.meta.nonNilPtr = true
+						if op == token.EQL {
+							return "false"
+						}
+						return "true"
+					}
 					if isErrorType(ot) {
 						return "(" + neg + "(" + t.expr(other) + ").isSome)"
 					}
@@ -1142,6 +1165,18 @@ func (t *tr) binary(op token.Token, X, Y ast.Expr, resTy types.Type) string {
 		}
 		if !isInt {
 			if bt, ok := xt.Underlying().(*types.Basic); ok && bt.Info()&types.IsBoolean != 0 && (op == token.EQL || op == token.NEQ) {
+				if op == token.EQL {
+					return "(" + x + " == " + y + ")"
+				}
+				return "(" + x + " != " + y + ")"
+			}
+			// strings are their bytes: equality only (ordering is not translated)
+			yt := t.typeOf(Y)
+			isStr := func(ty types.Type) bool {
+				b, ok := ty.Underlying().(*types.Basic)
+				return ok && b.Info()&types.IsString != 0
+			}
+			if isStr(xt) && isStr(yt) && (op == token.EQL || op == token.NEQ) {
 				if op == token.EQL {
 					return "(" + x + " == " + y + ")"
 				}
@@ -1398,6 +1433,8 @@ func (t *tr) externCall(c *ast.CallExpr) (string, bool) {
 				bad("hmac.New arity")
 			case "subtle.ConstantTimeCompare":
 				return "(Go.constantTimeCompare " + t.atom(c.Args[0]) + " " + t.atom(c.Args[1]) + ")", true
+			case "fmt.Errorf", "errors.New":
+				return "(some Go.Error.other)", true
 			case "subtle.ConstantTimeSelect":
 				return "(Go.constantTimeSelect " + t.atom(c.Args[0]) + " " + t.atom(c.Args[1]) + " " + t.atom(c.Args[2]) + ")", true
 			}
@@ -2546,7 +2583,11 @@ func (t *tr) function(m *fnMeta) (text string, err error) {
 		params = append([]string{"(ext : Go.Extern)"}, params...)
 	}
 	var b strings.Builder
-	fmt.Fprintf(&b, "/-- translated from `%s` -/\n", m.goName)
+	if m.nonNilPtr {
+		fmt.Fprintf(&b, "/-- translated from `%s` (pointer arguments are assumed non-nil: `p != nil` is `true`) -/\n", m.goName)
+	} else {
+		fmt.Fprintf(&b, "/-- translated from `%s` -/\n", m.goName)
+	}
 	if m.panics {
 		fmt.Fprintf(&b, "def %s %s : Except String (%s) := do\n", m.leanName, strings.Join(params, " "), ret)
 	} else {
@@ -2643,6 +2684,7 @@ func allGroups() []group {
 	for _, name := range pkgOrder {
 		gs = append(gs, group{pkg: name, stubs: viewStubs[name], funcs: wanted[name]})
 		gs = append(gs, group{pkg: name, sub: "rx", stubs: rxStubs, funcs: rxWanted[name]})
+		gs = append(gs, group{pkg: name, sub: "neg", stubs: negStubs, funcs: negWanted})
 	}
 	return gs
 }
@@ -2894,7 +2936,7 @@ func translatePackage(repo string, g group, w *strings.Builder, untranslated *[]
 		for _, sp := range gd.Specs {
 			vs := sp.(*ast.ValueSpec)
 			for i, nm := range vs.Names {
-				if nm.Name == "_" || i >= len(vs.Values) || nm.Name == "hmac" || nm.Name == "sm3" || nm.Name == "sha256" || nm.Name == "subtle" || nm.Name == "rxExtern" || nm.Name == "errOpaque" {
+				if nm.Name == "_" || i >= len(vs.Values) || nm.Name == "hmac" || nm.Name == "sm3" || nm.Name == "sha256" || nm.Name == "subtle" || nm.Name == "rxExtern" || nm.Name == "errOpaque" || nm.Name == "fmt" || nm.Name == "errors" {
 					continue
 				}
 				obj := info.Defs[nm]
